@@ -12,28 +12,34 @@ from ..impl.c16_oracle import oracle
 META = {
     "property_id": "C16",
     "design_ref": "DESIGN.md section 5, C16",
-    "technique": "Coq proof over an executable model of SingularityCutter (rebuild for ANY cut set: faces/ref_vertex/"
-                 "identification of corners; pruning as leaf removals with a fixpoint characterisation; tree-cotree "
-                 "connectivity of the cut graph; connectivity of the cut mesh) + index arithmetic, tests and union "
-                 "plumbing regenerated from cutting.py on every run + kernel-checked correspondence batches with "
-                 "boolean checkers for the disk claims",
-    "level_text": "Machine-checked, unbounded Coq theorems about the model of cutting.py: FULL - the rebuild (faces in "
-                  "bijection and order, corner positions, ref_vertex onto/consistent, corners identified iff linked by a "
-                  "chain of uncut edges around their vertex, for any cut set and any union-find inducing the same "
-                  "partition); the pruning loop terminates within its fuel, only removes non-singular leaves, keeps every "
-                  "leaf-free subgraph (border cycles, paths between singular vertices) and preserves connectivity; the "
-                  "complement of a dual forest is connected (tree-cotree) so the cut graph is connected, contains the "
-                  "border and reaches every singular vertex; the cut mesh is connected when the uncut dual edges span. "
-                  "PARTIAL - Euler characteristic 1 is an arithmetic identity under named counting hypotheses; 'one "
-                  "border loop' and 'singular vertex has a copy on the border of the cut mesh' are checked on every run "
-                  "by boolean checkers on the implementation's output, not proved. REFUTED - a closed sphere with two "
-                  "ADJACENT singular vertices is returned uncut (known finding). The dual Dijkstra tree and the "
-                  "singularity spanning tree are validated per run (spanning-tree certificate), not modelled.",
+    "technique": "Coq proof over an executable model of SingularityCutter (rebuild for ANY cut set; pruning loop refined to "
+                 "removals of non-singular leaves with a fixpoint characterisation; tree-cotree connectivity of the cut "
+                 "graph; connectivity of the cut mesh) + corner numbering, glue test, union plumbing and leaf tests "
+                 "regenerated from cutting.py on every run + kernel-checked correspondence batches whose boolean "
+                 "checkers validate the dual tree and the disk claims on mouette's own output",
+    "level_text": "Machine-checked, unbounded Coq theorems (closed under the global context) about the model of cutting.py. "
+                  "FULL: C16_rebuild (+_glued_meaning, _any_union_find) - for any face list, edge table and cut set the "
+                  "rebuilt mesh has the input faces in order, every corner at its input position, ref_vertex total, "
+                  "onto and consistent face by face, two corners identified iff linked by a chain of uncut edges around "
+                  "their vertex, no uncut edge opened, independent of the union-find's representatives; "
+                  "C16_cut0_is_complement; C16_pruning - the queue loop ends within its fuel, only removes "
+                  "non-singular leaves, leaves none, keeps every leaf-free subgraph and the connectivity of surviving "
+                  "vertices; C16_cut_graph_connected_contains_border - for any forest of the dual graph (rank "
+                  "certificate) the cut graph is connected and contains the border (tree-cotree); C16_connected - the "
+                  "cut mesh is connected when the uncut dual edges span. PARTIAL: "
+                  "C16_singularities_on_border_partial proves that every singular vertex is an end of a cut edge, not "
+                  "that it has a copy on the border of the cut mesh; C16_disk_euler_partial is only the counting "
+                  "identity for chi = 1; 'one border loop', chi = 1 and 'singular vertex on the border' are checked on "
+                  "mouette's output on every run by boolean checkers, not proved. REFUTED: C16_disk_refuted - a closed "
+                  "sphere with two ADJACENT singular vertices is returned uncut (known finding). The dual Dijkstra "
+                  "tree and the singularity spanning tree are validated per run (spanning-tree certificate) instead "
+                  "of being modelled.",
     "level_note": "Trusted: Coq kernel + vm_compute; the cutting.py translator; the correspondence harness (mesh "
                   "generator, driver wrapping the cutter's own methods to observe intermediate sets, canonicalisation); "
-                  "mouette's SurfaceMesh tables (edges, direct_face) are re-derived in the model from the face list and "
-                  "compared; UnionFind enters through `find` only (its partition semantics is C20's theorem); float "
-                  "geometry only influences which spanning tree is chosen.",
+                  "mouette's SurfaceMesh tables (edges, direct_face, interior/boundary) are re-derived in the model "
+                  "from the face list and compared; UnionFind enters through `find` only (its partition semantics is "
+                  "C20's theorem; C16_rebuild_any_union_find shows nothing else matters); float geometry only "
+                  "influences which spanning tree is chosen.",
 }
 
 HEADER = """From Coq Require Import ZArith List Bool.
@@ -282,7 +288,7 @@ def run(ctx):
                                           features=c.get("feat") is not None, size="?", edits=[]))
                 cases.append(c)
     cases += handcrafted()
-    max_faces = 80 if quick else 120
+    max_faces = 80 if quick else 100
     while len(cases) < n_gen:
         cases.append(G.gen_case(ctx.rng, max_faces=max_faces))
     ctx.log("running the implementation on %d cases" % len(cases))
@@ -380,7 +386,7 @@ def run(ctx):
 
 
 def replay(ctx, data):
-    case = data.get("case")
+    case = data.get("case") or (data if "faces" in data else None)
     if not case:
         print("replay file names no concrete input:", json.dumps(data)[:400])
         return 1
